@@ -141,7 +141,8 @@ def run_property(prop, tier, repo, seed, only=None):
     except ModuleNotFoundError:
         print("no rule module for %s" % prop, file=sys.stderr)
         return 2
-    passes = [(os.environ.get("VERIF_REPLAY_CONFIG", "core") if only else "core", "", False)]
+    base = getattr(mod, "QUICK_CONFIG", "core")  # the crates a property's rules need (C19: the LSP crate)
+    passes = [(os.environ.get("VERIF_REPLAY_CONFIG", base) if only else base, "", False)]
     if tier == "thorough" and not only:
         passes = [("full", "", False), ("pagable", "pagable/", True), ("nodebug", "nodebug/", True)]
     for config, prefix, lenient in passes:
